@@ -176,6 +176,14 @@ mut("c14_create_in_caller", "src/storage/core.rs", """            let blob = tok
 mut("c15_count_from_keys", "src/blob/index/bptree/serializer.rs", "            let headers_len = self\n                .headers_btree\n                .iter()\n                .fold(0, |acc, (_k, v)| acc + v.len());", "            let headers_len = self\n                .headers_btree\n                .iter()\n                .fold(0, |acc, (_k, v)| acc + v.len().min(1));", ["C15", "C09"], "on-disk records_count from keys")
 mut("c15_disk_used_no_active", "src/storage/core.rs", "            result += ablob.read().await.disk_used();", "            result += 0 * ablob.read().await.disk_used();", ["C15"])
 mut("c15_blobs_count_slots", "src/filter/hierarchical.rs", "        self.children.iter().flatten().count()", "        self.children.len()", ["C15"], "reverts fix F3")
+# ---- C16
+mut("c16_skip_off_by_header", "src/tools/blob_reader.rs", "            .checked_add(header.data_size())\n            .and_then(|x| x.checked_add(header.meta_size()))", "            .checked_add(header.data_size())", ["C16"], "skip_wrong_record_data forgets the meta size")
+mut("c16_writer_no_revalidate", "src/tools/blob_writer.rs", "            let written_record = reader.read_single_record()?;\n            if record != &written_record {", "            let written_record = reader.read_single_record()?;\n            if false && record != &written_record {", ["C16"], "EQUIVALENT unless the writer is broken: written records not compared")
+mut("c16_validate_index_no_hash", "src/blob/index/bptree/core.rs", "        if !Self::hash_valid(&self.header, buf)? {", "        if false && !Self::hash_valid(&self.header, buf)? {", ["C16"], "validate_index without the hash check")
+mut("c16_f8_revert", "src/tools/blob_writer.rs", "        if record.header.blob_offset() != self.written {", "        if false && record.header.blob_offset() != self.written {", ["C16"], "reverts fix F8")
+mut("c16_validate_skips_last", "src/tools/validation.rs", "    while !reader.is_eof() {\n        reader.read_record(false)?;\n    }\n    Ok(())", "    while !reader.is_eof() {\n        if reader.read_record(false).is_err() && reader.is_eof() { break; }\n    }\n    Ok(())", ["C16"], "validate_blob tolerates a damaged last record")
+mut("c16_migrate_drops_markers", "src/tools/utils.rs", "            Ok(record) => {\n                writer.write_record(record)?;\n                count += 1;", "            Ok(record) => {\n                if !(source_version == 0 && record.header().is_deleted()) { writer.write_record(record)?; }\n                count += 1;", ["C16"], "v0->v1 migration drops deletion markers")
+mut("c16_collector_counts_keys", "src/tools/collectors.rs", "    fn add_record(&mut self, record: Record) {\n        self.records += 1;", "    fn add_record(&mut self, record: Record) {\n        self.records = self.keys.len() + 1;", ["C16"], "BlobSummaryCollector counts unique keys instead of records")
 # ---- fixes reverted (monitors must still fire)
 mut("f1_worker_panic", "src/storage/observer_worker.rs", """                    error!("ObserverWorker error, request skipped: {:?}", err);""", """                    panic!("ObserverWorker unexpected error: {:?}", err);""", ["C13", "C04"], "reverts fix F1")
 mut("f2_restore_no_load", "src/storage/core.rs", """                if let Err(e) = blob.load_index().await {
